@@ -4,6 +4,8 @@ import (
 	"encoding/json"
 	"fmt"
 	"sync"
+
+	"github.com/oasdiff/yaml3"
 )
 
 func encodeBody(body any, mediaType string) ([]byte, error) {
@@ -28,6 +30,9 @@ var bodyEncoders = map[string]BodyEncoder{
 	"application/hal+json":        json.Marshal,
 	"application/vnd.api+json":    json.Marshal,
 	"application/problem+json":    json.Marshal,
+	// the media types that are decoded by YamlBodyDecoder
+	"application/yaml":   yaml.Marshal,
+	"application/x-yaml": yaml.Marshal,
 }
 
 // RegisterBodyEncoder enables package-wide decoding of contentType values
